@@ -1,0 +1,66 @@
+//go:build verif
+
+// Contracts checked by /verif (govc). Comments only; not part of any normal build.
+// Septet packing per 3GPP TS 23.038 section 6.1.2.1.1: septet i occupies bits 7i..7i+6 of the little-endian bit stream.
+
+package gsm7encoding
+
+// sept(S, j): the j-th septet (7 bits) or 0 beyond the end.
+//@ pure func sept(S []byte, j int) uint8 = j < len(S) ? S[j] & 127 : 0
+
+// specOctet(S, m): octet m of the packed stream = bits 8m..8m+7. With m = 7q + r it takes the upper 7-r bits of
+// septet 8q+r and the lower r+1 bits of septet 8q+r+1.
+//@ pure func specOctet(S []byte, m int) uint8 = \
+//@     m % 7 == 0 ? (sept(S, 8*(m/7) + 0) >> 0) | (sept(S, 8*(m/7) + 1) << 7) : \
+//@     m % 7 == 1 ? (sept(S, 8*(m/7) + 1) >> 1) | (sept(S, 8*(m/7) + 2) << 6) : \
+//@     m % 7 == 2 ? (sept(S, 8*(m/7) + 2) >> 2) | (sept(S, 8*(m/7) + 3) << 5) : \
+//@     m % 7 == 3 ? (sept(S, 8*(m/7) + 3) >> 3) | (sept(S, 8*(m/7) + 4) << 4) : \
+//@     m % 7 == 4 ? (sept(S, 8*(m/7) + 4) >> 4) | (sept(S, 8*(m/7) + 5) << 3) : \
+//@     m % 7 == 5 ? (sept(S, 8*(m/7) + 5) >> 5) | (sept(S, 8*(m/7) + 6) << 2) : \
+//@                  (sept(S, 8*(m/7) + 6) >> 6) | (sept(S, 8*(m/7) + 7) << 1)
+
+//@ func Pack
+//@   mode bv
+//@   option repr = arr
+//@   props C08,C03
+//@   ensures [C08 length] len(dst) == (7 * len(septets) + 7) / 8
+//@   ensures [C08 bits] forall m int :: 0 <= m && m < len(dst) && !(m == len(dst) - 1 && len(septets) % 8 == 7) ==> dst[m] == specOctet(septets, m)
+//@   ensures [C08 cr] len(septets) % 8 == 7 ==> dst[len(dst) - 1] == ((specOctet(septets, len(dst) - 1) >> 1) == 0 ? specOctet(septets, len(dst) - 1) | 26 : specOctet(septets, len(dst) - 1))
+//@   loop 1
+//@     invariant 0 <= nSeptet && nSeptet <= len(septets) && remain == len(septets) - nSeptet
+//@     invariant nDst == (7 * nSeptet + 7) / 8 && (nSeptet == len(septets) || nSeptet % 8 == 0)
+//@     invariant len(dst) == (7 * len(septets) + 7) / 8
+//@     invariant forall m int :: 0 <= m && m < nDst ==> dst[m] == specOctet(septets, m)
+//@     decreases remain
+
+// octet(P, i): the i-th packed octet or 0 beyond the end.
+//@ pure func octet(P []byte, i int) uint8 = i < len(P) ? P[i] : 0
+
+// specSeptet(P, j): septet j of the packed stream = bits 7j..7j+6; with j = 8q + r it starts in octet 7q + r - (r > 0 ? 1 : 0).
+//@ pure func specSeptet(P []byte, j int) uint8 = \
+//@     j % 8 == 0 ? octet(P, 7*(j/8) + 0) & 127 : \
+//@     j % 8 == 1 ? ((octet(P, 7*(j/8) + 1) & 63) << 1) | (octet(P, 7*(j/8) + 0) >> 7) : \
+//@     j % 8 == 2 ? ((octet(P, 7*(j/8) + 2) & 31) << 2) | (octet(P, 7*(j/8) + 1) >> 6) : \
+//@     j % 8 == 3 ? ((octet(P, 7*(j/8) + 3) & 15) << 3) | (octet(P, 7*(j/8) + 2) >> 5) : \
+//@     j % 8 == 4 ? ((octet(P, 7*(j/8) + 4) & 7) << 4) | (octet(P, 7*(j/8) + 3) >> 4) : \
+//@     j % 8 == 5 ? ((octet(P, 7*(j/8) + 5) & 3) << 5) | (octet(P, 7*(j/8) + 4) >> 3) : \
+//@     j % 8 == 6 ? ((octet(P, 7*(j/8) + 6) & 1) << 6) | (octet(P, 7*(j/8) + 5) >> 2) : \
+//@                  octet(P, 7*(j/8) + 6) >> 1
+
+// Unpack: every septet returned is the septet at its position of the bit stream; the count is the number of whole septets
+// the octets hold, except that when the octets hold an exact multiple of eight septets the last one may be dropped if it
+// is 0 (padding) or CR (the filler of TS 23.038) - the receiver cannot tell those from padding (carve-out of C05/C08).
+//@ func Unpack
+//@   mode bv
+//@   option repr = arr
+//@   props C08,C03
+//@   ensures [C08 bits] forall j int :: 0 <= j && j < len(septets) ==> septets[j] == specSeptet(src, j)
+//@   ensures [C08 count] len(septets) == 8 * len(src) / 7 || (len(src) > 0 && len(src) % 7 == 0 && len(septets) == 8 * len(src) / 7 - 1 && (specSeptet(src, 8 * len(src) / 7 - 1) == 0 || specSeptet(src, 8 * len(src) / 7 - 1) == 13))
+//@   ensures [C03 alloc] alloc <= 16 * len(src) + 64
+//@   loop 1
+//@     invariant 0 <= count && count <= len(src) && remain == len(src) - count
+//@     invariant count == len(src) || count % 7 == 0
+//@     invariant len(septets) == 8 * count / 7 || (count == len(src) && count > 0 && count % 7 == 0 && len(septets) == 8 * count / 7 - 1 && specSeptet(src, 8 * count / 7 - 1) == 0)
+//@     invariant forall j int :: 0 <= j && j < len(septets) ==> septets[j] == specSeptet(src, j)
+//@     invariant alloc <= entry(alloc) + 8 * count
+//@     decreases remain
